@@ -135,6 +135,28 @@ Proof.
   - rewrite validate_good; [now apply export_probes_no_ops|].
     apply Forall_forall. intros u Hu Hbad. apply Hg. apply Exists_exists. eauto.
 Qed.
+(** Every mutating operation the whole prelude issues - argument validation, pre-flight, export
+    probes - is [SetLen target declared] on a non-padding entry. *)
+Lemma validate_ops ps k o : In o (fst (run (validate_prog ps k))) -> In o (fst (run k)).
+Proof.
+  induction ps as [|u r IH]; [auto|]. destruct u as [|p]; cbn [validate_prog run_prelude]; [intros []|].
+  destruct (ans p false); cbn [run_prelude fst]; try (intros []). exact IH.
+Qed.
+
+Lemma pass1_ops es k o : In o (fst (run (resize_pass1 es k))) -> In o (fst (run k)).
+Proof. destruct (pass1_no_ops es k) as [->| ->]; [auto|intros []]. Qed.
+
+Theorem prelude_ops_shape scans export rz es k o : (forall a, fst (run (k a)) = []) ->
+  In o (fst (run (prelude_prog scans export rz es k))) ->
+  exists e, In e es /\ e_pad e = false /\ o = SetLen (e_target e) (e_len e).
+Proof.
+  intros Hk Hin. unfold prelude_prog in Hin. apply validate_ops in Hin.
+  assert (Hnone : fst (run (export_probes es [] k)) = []) by now apply export_probes_no_ops.
+  destruct rz.
+  - unfold resize_prog in Hin. apply pass1_ops in Hin. destruct (pass2_ops_shape _ _ _ Hin) as [Hi|He]; [|exact He].
+    rewrite Hnone in Hi. contradiction.
+  - rewrite Hnone in Hin. contradiction.
+Qed.
 End Prelude.
 
 (** No torrents: [start] returns Ok before validating anything (the model: no program is run). *)
